@@ -296,9 +296,15 @@ static int mk_socketpair(int sv[2])
 static int closed_port(int type)
 {
 	struct sockaddr_in sin; socklen_t l = sizeof sin;
-	int s = socket(AF_INET, type, 0);
+	int s = socket(AF_INET, type, 0), one = 1;
 	memset(&sin, 0, sizeof sin); sin.sin_family = AF_INET; sin.sin_addr.s_addr = htonl(0x7f000001);
-	if (s < 0 || bind(s, (struct sockaddr *)&sin, sizeof sin) < 0 || getsockname(s, (struct sockaddr *)&sin, &l) < 0) { perror("closed_port"); abort(); }
+	/* SO_REUSEADDR: ports that only carry TIME_WAIT remnants of earlier executions stay usable (a long
+	 * run makes tens of thousands of loopback connections per minute) */
+	if (s >= 0) setsockopt(s, SOL_SOCKET, SO_REUSEADDR, &one, sizeof one);
+	if (s < 0 || bind(s, (struct sockaddr *)&sin, sizeof sin) < 0 || getsockname(s, (struct sockaddr *)&sin, &l) < 0) {
+		if (s >= 0) close(s);
+		return 1;       /* tcpmux: nothing listens there; only the outcome "refused" matters */
+	}
 	return ntohs(sin.sin_port);
 }
 /* a bound loopback UDP socket (nobody reads it unless the scenario does) */
